@@ -309,6 +309,14 @@ class Check:
                 self.proof_broken("tools/translate_code.py: enable_streaming / the Sirm accessors no longer have the shape "
                                   "the translator accepts (%s): gen/EnableStreaming.v cannot be regenerated" % e)
                 return False
+        if pid == "C01":
+            import translate_codec
+            try:
+                translate_codec.regenerate(REPO)
+            except (translate_codec.ShapeError, OSError) as e:
+                self.proof_broken("tools/translate_codec.py: the value codecs of genapi/src/utils.rs no longer have the shape "
+                                  "the translator accepts (%s): gen/CodecSrc.v cannot be regenerated" % e)
+                return False
         if pid == "C02":
             import translate_bitmask
             try:
@@ -333,7 +341,8 @@ class Check:
                 self.proof_broken("tools/translate_names.py: genapi/src/parser/elem_name.rs no longer has the shape the "
                                   "translator accepts (%s): gen/ElemNames.v cannot be regenerated" % e)
                 return False
-        tr = {"C02": "tools/translate_bitmask.py (typed mini-Rust translator of `impl BitMask`, genapi/src/masked_int_reg.rs -> gen/BitMaskSrc.v) and lib/RustInt.v (debug-build semantics of the integer operations)",
+        tr = {"C01": "tools/translate_codec.py (macro arms and match arms of int_from_slice / bytes_from_int / float_from_slice / bytes_from_float, genapi/src/utils.rs -> gen/CodecSrc.v) and lib/RustBytes.v (from_xx_bytes / to_xx_bytes / copy_from_slice)",
+              "C02": "tools/translate_bitmask.py (typed mini-Rust translator of `impl BitMask`, genapi/src/masked_int_reg.rs -> gen/BitMaskSrc.v) and lib/RustInt.v (debug-build semantics of the integer operations)",
               "C08": "tools/translate_proto.py (protocol tables -> gen/ProtoTables.v)", "C09": "tools/translate_proto.py (protocol tables -> gen/ProtoTables.v) and tools/translate_serialize.py (typed mini-Rust translator of the structs, the trait CommandScd and its four implementations, the constructors, the length functions and every serializer of device/src/u3v/protocol/cmd.rs -> gen/SerializeSrc.v; serializers become lists of write operations interpreted by model/SerOps.v; shape of write_bytes_le in impl/src/bytes_io.rs asserted) and lib/RustInt.v (debug-build semantics of the integer operations)",
               "C11": "tools/translate_proto.py (protocol tables -> gen/ProtoTables.v)",
               "C13": "tools/translate_decoders.py + tools/minirust.py (typed mini-Rust translator of the bit-level decoders, the bit macros, register_address and ParseBytes for BusSpeed of cameleon/src/u3v/register_map.rs -> gen/DecodersSrc.v) and lib/RustInt.v (debug-build semantics of the integer operations)",
